@@ -165,7 +165,7 @@ theorem Sound.makeRoom {fx : Fixes} {c c' : Cache} (hc : c.Sound fx) (h : c.make
   · exact Sound.evict hc h
   · simp only [Except.ok.injEq] at h; subst h; exact hc
 
-theorem Sound.admit {fx : Fixes} {c : Cache} (v : Item) (hc : c.Sound fx) : (c.admit v).Sound fx := by
+theorem Sound.enroll {fx : Fixes} {c : Cache} (v : Item) (hc : c.Sound fx) : (c.enroll v).Sound fx := by
   intro k w hm
   rcases mem_assocSet hm with h | h
   · simp only [Prod.mk.injEq] at h; rw [h.1, h.2]; exact ⟨0, rfl⟩
@@ -187,7 +187,7 @@ theorem Sound.store {fx : Fixes} {c c' : Cache} {key : Arg} {v : Item} (hc : c.S
     · split at h
       · simp at h
       · rename_i c1 hc1
-        exact Sound.bind (Sound.admit v (Sound.makeRoom hc hc1)) hk h
+        exact Sound.bind (Sound.enroll v (Sound.makeRoom hc hc1)) hk h
 
 theorem bind_err {c : Cache} {key : Arg} {v : Item} {e : Err} (h : c.bind key v = .error e) :
     e = .key := by
